@@ -260,7 +260,11 @@ def run(ctx):
         "np.interp on the shipped table stays in [0,1] in binary64 (proved over the reals; table range checked "
         "inside Coq by vm_compute)",
     ]
-    proved = cm.prove(ctx)
+    # Proofs/DscoreADProofs.v (interval arithmetic: the pinned p-value exceeds 1; E3 tactics) is built as
+    # an extra target: it is outside the closure of Props/C10.v (see the comment there)
+    proved = cm.prove(ctx, extra_targets=["Proofs/DscoreADProofs.vo"])
+    ctx.obligation("Proofs/DscoreADProofs.v:ad_pvalue_noclip_refuted (interval arithmetic; extra target, "
+                   "compiled by coqc, outside the coqchk closure)", proved)
     cm.use_impl()
     import c_hydrodiy_stat
     from hydrodiy.stat import metrics
